@@ -112,6 +112,46 @@ def d3_wait_returns_on_first_failure(ctx, rm: REModel):
            "" if ok else "the completion of a status no longer reaches _status_object_completed / the group", where=where(a, a.node))
 
 
+def d3_pending_statuses_not_forgotten(ctx, rm: REModel):
+    """`wait` finds the statuses it has to wait for in self._groups; a status started with a group and not yet waited for must
+    stay there until the plan waits (or the call starts over).  Closed world: who removes entries from _groups / _status_objs."""
+    repo = rm.repo
+    rule = "C12.D3-pending-statuses-not-forgotten"
+    # direct erasers: .clear() / .pop() / del on the two containers
+    erasers = {}
+    for f in repo.funcs_in(MOD):
+        for c in A.calls_in(f.node):
+            if isinstance(c.func, ast.Attribute) and c.func.attr in ("clear", "pop", "popitem") and A.chain(c.func.value) in ("self._groups", "self._status_objs"):
+                erasers.setdefault(f.qualname, []).append((A.chain(c.func.value), c.func.attr, c))
+        for st in A.walk_stmts(f.node.body):
+            if isinstance(st, ast.Delete) and any(isinstance(t, ast.Subscript) and A.chain(t.value) in ("self._groups", "self._status_objs") for t in st.targets):
+                erasers.setdefault(f.qualname, []).append(("del", "del", st))
+            for t in A.targets_of(st):
+                if A.chain(t) in ("self._groups", "self._status_objs") and f.qualname != f"{CLS}.__init__":
+                    erasers.setdefault(f.qualname, []).append((A.chain(t), "rebind", st))
+    allowed = {f"{CLS}._clear_run_cache": "everything, at the start of a call", f"{CLS}._wait": "the group being waited for"}
+    for fq, items in sorted(erasers.items()):
+        for target, how, node in items:
+            ok = fq in allowed
+            ctx.ob(rule, f"{MOD}:{fq}:{target}.{how}", ok, allowed.get(fq, "") if ok else
+                   f"{fq} forgets pending statuses: a later `wait` on their group returns at once and a failure of theirs reaches the plan at an unrelated message (or never)",
+                   where=where(repo.funcs[f"{MOD}:{fq}"], node))
+    ctx.expect(rule, 2)
+    # _clear_run_cache itself is only reached when a call starts (or from reset)
+    for f in repo.funcs_in(MOD):
+        for c in A.calls_in(f.node):
+            if A.call_name(c) == "self._clear_run_cache":
+                ok = f.qualname in (f"{CLS}.__call__", f"{CLS}.reset", f"{CLS}._clear_call_cache")
+                ctx.ob(rule, cname(f, c), ok, "" if ok else
+                       "the per-call bookkeeping of pending statuses is cleared in the middle of a call: statuses started before this point are no longer waited for",
+                       nontrivial=True, where=where(f, c))
+    # in _wait the group is removed by the wait on that very group
+    w = rm.handler("wait")
+    pops = [c for c in A.calls_in(w.node) if A.call_name(c) == "self._groups.pop"]
+    ok = len(pops) == 1 and pops[0].args and A.norm(pops[0].args[0]) == "group"
+    ctx.ob(rule, cname(w, None, "wait removes exactly the group it waits for"), ok, "" if ok else "wait drops another group", where=where(w, w.node))
+
+
 def d5_pardon_only_when_call_is_over(ctx, rm: REModel):
     """Status failures are ignored ('pardoned') only once the call is being torn down."""
     repo = rm.repo
@@ -170,6 +210,7 @@ def run(ctx):
     d1_error_discipline(ctx, rm)
     d2_poll_every_iteration(ctx, rm)
     d3_wait_returns_on_first_failure(ctx, rm)
+    d3_pending_statuses_not_forgotten(ctx, rm)
     n0 = len(ctx.obligations)
     c02.d4_failed_status(ctx, rm)
     for o in ctx.obligations[n0:]:
@@ -188,6 +229,7 @@ CLAIM = {
 
 RE = "run_engine.py"
 MUTANTS = [
+    ("close_run clears the per-call status bookkeeping (seed C12-b)", [(RE, "        await self._reset_checkpoint_state_coro()\n        return ret", "        await self._reset_checkpoint_state_coro()\n        if not self._run_bundlers:\n            self._clear_run_cache()\n        return ret")], "C12.D3-pending"),
     ("command errors dropped",
      [(RE, "                    except Exception as e:\n                        new_response = e\n                        continue\n                    # normal use", "                    except Exception as e:\n                        self.log.exception(\"command failed\")\n                        continue\n                    # normal use")], "C12.D1"),
     ("status failures polled after the plan was advanced",
